@@ -8,9 +8,10 @@
   Every theorem holds for ALL rings (any capacity, offset, fill, wrapped or not), all operands, all
   histories.  Proved: crop, get, set, push, unshift, pop, shift, align (incl. the 1024-byte block
   rotation of mpt_memrev), resize, string (ok + refusal cases, memory bounds), the history theorem over
-  these operations, and prepare.  Stated but not proved (correspondence only): find — see `find_statement`.
+  these operations, prepare, find (first element-aligned match or documented refusal), and the C++
+  `io::queue` wrappers push/unshift/pop/shift/write.  Correspondence only: `io::queue::read/peek`.
 -/
-import MptModel.Lemmas.Ring3
+import MptModel.Lemmas.Ring4
 
 namespace Mpt.C13
 open Mpt Mpt.Ring
@@ -289,15 +290,44 @@ example : (Ring.make 4 3 [97, 98, 99]).WF ∧ (Ring.make 4 3 [97, 98, 99]).conte
 example : (runM (Ring.make 4 3 [97, 98, 99]) [.crop 1 1, .push [100, 101], .pop 3]).2
     = [.ok [], .ok [], .ok [99, 100, 101]] := by decide
 
-/-! ### Stated, not proved (tied to the code by the correspondence run only) -/
-
-/-- `mpt_queue_find` returns the first element-aligned match, or refuses when an element straddles the wrap -/
-def find_statement : Prop :=
-  ∀ (r : Ring) (needle : List Byte), r.WF → needle ≠ [] →
+/-- `mpt_queue_find` (comparison = "element equals needle"): the result is the FIRST element-aligned
+    occurrence of the needle in the content (returned as the physical position of that logical index),
+    `none` only if no element matches, and NULL only in the two documented cases (fewer bytes than one
+    element; an element would straddle the storage wrap).  Never out of bounds. -/
+theorem find_first_match (r : Ring) (h : r.WF) (needle : List Byte) (hn : needle ≠ []) :
     match r.find needle with
-    | .ok (some a) => (Mem.read r.store a needle.length = needle)
-    | .ok none => ∀ k, (k + 1) * needle.length ≤ r.len → (r.content.drop (k * needle.length)).take needle.length ≠ needle
-    | .null => True
-    | _ => False
+    | .ok (some a) => ∃ k, (k + 1) * needle.length ≤ r.len ∧ a = physIdx r.store.length r.off (k * needle.length) ∧
+        elemAt r.content needle.length k = needle ∧ ∀ j, j < k → elemAt r.content needle.length j ≠ needle
+    | .ok none => ∀ k, (k + 1) * needle.length ≤ r.len → elemAt r.content needle.length k ≠ needle
+    | .null => r.len < needle.length ∨ (r.frag = true ∧ (r.store.length - r.off) % needle.length ≠ 0)
+    | _ => False :=
+  find_spec r h needle hn
+
+/-- C++ `io::queue::pop` (with or without a target): `true` = the last `n` bytes were removed (and
+    returned), `false` = content unchanged; a non-empty request within the content always succeeds -/
+theorem cxx_pop (r : Ring) (h : r.WF) (n : Nat) (dst : Bool) :
+    ∃ r' b out, r.xpop n dst = .ok (r', b, out) ∧ r'.WF ∧
+      (b = false → r'.content = r.content ∧ r'.store.length = r.store.length) ∧
+      (b = true → n ≤ r.len ∧ r'.content = r.content.take (r.len - n) ∧ r'.store.length = r.store.length ∧
+        (dst = true → out = r.content.drop (r.len - n))) ∧
+      (n ≤ r.len → 0 < n → r.store.length ≠ 0 → b = true) :=
+  xpop_spec r h n dst
+
+/-- C++ `io::queue::shift` -/
+theorem cxx_shift (r : Ring) (h : r.WF) (n : Nat) (dst : Bool) :
+    ∃ r' b out, r.xshift n dst = .ok (r', b, out) ∧ r'.WF ∧
+      (b = false → r'.content = r.content ∧ r'.store.length = r.store.length) ∧
+      (b = true → n ≤ r.len ∧ r'.content = r.content.drop n ∧ r'.store.length = r.store.length ∧
+        (dst = true → out = r.content.take n)) ∧
+      (n ≤ r.len → 0 < n → r.store.length ≠ 0 → b = true) :=
+  xshift_spec r h n dst
+
+/-- C++ `io::queue::write(len, data, part)`: all `len` elements are appended and `len` is returned -/
+theorem cxx_write (r : Ring) (h : r.WF) (part : Nat) (hp : 0 < part) (elems : List (List Byte))
+    (he : ∀ e ∈ elems, e.length = part) :
+    ∃ r', r.xwrite part elems = .ok (r', elems.length) ∧ r'.WF ∧ r'.content = r.content ++ elems.flatten :=
+  xwrite_spec r h part hp elems he
+
+example : (Ring.make 8 6 [1, 2, 3, 4]).find [3, 4] = .ok (some 0) := by decide
 
 end Mpt.C13
